@@ -4,8 +4,9 @@ use crate::core::Scenario;
 pub fn scenario_by_name(name: &str) -> Option<Box<dyn Scenario>> {
     match name {
         "tx-history" | "C04" => Some(Box::new(crate::scen_txhist::TxHistory)),
+        "interp-driver" | "C16" => Some(Box::new(crate::scen_interp::InterpDriver)),
         _ => None,
     }
 }
 
-pub const ALL: &[(&str, &str)] = &[("C04", "tx-history")];
+pub const ALL: &[(&str, &str)] = &[("C04", "tx-history"), ("C16", "interp-driver")];
